@@ -515,6 +515,7 @@ class LifeHarness:
             return
         elif label == "time":
             kind = "time"
+            w.drain()  # time only passes while the loop is idle: pending wake-ups run at the current instant
             w.advance_next_timer()
         else:
             raise HarnessError(f"unknown label {label}")
